@@ -448,13 +448,17 @@ class Audit:
                     self.cnt("B_pairs_first_call_rejected", False)
 
     # ---- D
-    def check_frame(self, base, rid, extra, expect):
-        """expect: dict key -> function(old value or None) -> new value ; keys with unchanged value are ignored"""
-        r0 = dispatch(self.B[base], self.row(rid))
-        r1 = dispatch(list(self.B[base]) + [tuple(x) for x in extra], self.row(rid))
-        inp = {"base": base, "row": rid, "extra": [list(x) for x in extra]}
-        name = "+".join(k for k, _ in extra)
-        self.cnt("D_override_frames")
+    def check_frame(self, base, rid, extra, expect, base_opts=None, tag=""):
+        """expect: dict key -> function(old value or None) -> new value ; keys with unchanged value are ignored.
+        base_opts / tag: an explicit base configuration (family value the override is combined with)"""
+        bo = list(self.B[base]) if base_opts is None else [tuple(x) for x in base_opts]
+        r0 = dispatch(bo, self.row(rid))
+        if tag and not r0["ok"]:
+            return "base-rejected"   # this family value is not valid on this scale: nothing to combine with
+        r1 = dispatch(bo + [tuple(x) for x in extra], self.row(rid))
+        inp = {"base": base, "row": rid, "extra": [list(x) for x in extra], "tag": tag}
+        name = "+".join(k for k, _ in extra) + (("|" + tag) if tag else "")
+        self.cnt("D_override_frames" if not tag else "D_override_x_family_frames")
         if not (r0["ok"] and r1["ok"]):
             self.fail(f"C13:override-rejected@run_scenario.set_depending_on_option:{name}",
                       f"in-range override {extra} rejected ({r1.get('kind')}, base ok={r0['ok']})", "frame", inp)
@@ -475,9 +479,125 @@ class Audit:
             if got is None or "n" not in got or abs(got["n"] - want) > 1e-12 * max(1.0, abs(want)):
                 bad.append((k, got, want))
         if changed != exp_changed or bad or fl(r0["tc"]) != fl(r1["tc"]):
+            extra_changed = sorted(changed - exp_changed)
             self.fail(f"C13:override-frame@run_scenario.set_depending_on_option:{name}",
-                      f"override {extra}: changed keys {sorted(changed)} expected {sorted(exp_changed)}; wrong values {bad[:3]}",
-                      "frame", inp)
+                      f"override {extra}{' on top of ' + tag if tag else ''} (row {rid}): changed keys {sorted(changed)} expected "
+                      f"{sorted(exp_changed)}; also changed: {[(k, f0.get(k), f1.get(k)) for k in extra_changed[:4]]}; "
+                      f"wrong values {bad[:3]}", "frame", inp)
+
+    def part_D2(self, species):
+        """every numeric override on top of EVERY value of the option families it could interact with"""
+        code = code_values()
+        rows = self.p["special_rows"]
+
+        def variants(fam):
+            for base, rid in (("G", None), ("C", rows[4])):
+                for val in code.get(fam, []):
+                    yield base, rid, [(k, (val if k == fam else v)) for k, v in self.B[base]], f"{fam}={val}"
+        for base, rid, bo, tag in variants("ratio_stocks_untouched"):
+            for v in (0, 1, 0.375):
+                self.check_frame(base, rid, [("RATIO_STOCKS_UNTOUCHED", v)], {"RATIO_STOCKS_UNTOUCHED": (lambda old, v=v: float(v))}, bo, tag)
+        for base, rid, bo, tag in variants("shutoff"):
+            for v in (0, 100, 42.5):
+                k = "MINIMUM_PERCENT_FED_BEFORE_NONHUMAN_CONSUMPTION_ALLOWED"
+                self.check_frame(base, rid, [(k, v)], {k: (lambda old, v=v: float(v))}, bo, tag)
+        for okey, pre, fam in (("CROP_PRODUCTION_MULTIPLIER", "RATIO_CROPS_YEAR", "crop_disruption"),
+                               ("GRASSES_PRODUCTION_MULTIPLIER", "RATIO_GRASSES_YEAR", "grasses")):
+            for base, rid, bo, tag in variants(fam):
+                for m in (0.5, 2.25):
+                    self.check_frame(base, rid, [(okey, m)], {f"{pre}{i}": (lambda old, m=m: None if old is None else old["n"] * m)
+                                                              for i in range(1, 12)}, bo, tag)
+        for base, rid, bo, tag in variants("meat_strategy"):
+            self.check_frame(base, rid, [("kg_meat_per_large_animal", 233.5)], {"kg_meat_per_large_animal": (lambda old: 233.5)}, bo, tag)
+            for sp in species:
+                self.check_frame(base, rid, [(sp, 31415)], {sp + "_start": (lambda old: 31415.0)}, bo, tag)
+
+    # ---- J: alter_scenario_if_known_to_fail: which (country, option combination) has an option REWRITTEN
+    ALTER_FAMILIES = ["scenario", "shutoff", "meat_strategy", "cull", "ratio_stocks_untouched", "crop_disruption"]
+
+    def alter_table_countries(self):
+        from src.scenarios.run_scenario import ScenarioRunner
+        src = inspect.getsource(ScenarioRunner.alter_scenario_if_known_to_fail)
+        return sorted(set(re.findall(r'"country_code":\s*"(\w+)"', src)))
+
+    def rewrites_for(self, iso, fams, code):
+        """every combination of the given families (all dispatched values) for which the function returns a dictionary that
+        differs from the one it was given -> list of (combination string, rewrite string)"""
+        import itertools
+        from src.scenarios.run_scenario import ScenarioRunner
+        runner = ScenarioRunner()
+        base = {k: v for k, v in self.B["C"]}
+        out = []
+        n = 0
+        with quiet():
+            for combo in itertools.product(*[code[f] for f in fams]):
+                o = dict(base)
+                o.update(zip(fams, combo))
+                n += 1
+                try:
+                    r = runner.alter_scenario_if_known_to_fail(o, iso)
+                except BaseException as e:
+                    out.append(("|".join(f"{f}={v}" for f, v in zip(fams, combo)), "<" + classify(e) + ">"))
+                    continue
+                if r != o:
+                    ch = sorted((k, r.get(k)) for k in set(r) | set(o) if r.get(k) != o.get(k))
+                    out.append(("|".join(f"{f}={v}" for f, v in zip(fams, combo)), ",".join(f"{k}={v}" for k, v in ch)))
+        return n, out
+
+    def part_J(self, quick):
+        code = code_values()
+        fams = [f for f in self.ALTER_FAMILIES if f in code]
+        table_c = self.alter_table_countries()
+        all_codes = [str(x) for x in self.rows.table["iso3"]]
+        others = ["USA", "IND"] if quick else [c for c in all_codes if c not in table_c]
+        recorded = self.p.get("recorded_rewrites")
+        found = {}
+        for iso in table_c + others:
+            n, rw = self.rewrites_for(iso, fams, code)
+            self.counts["J_alter_combinations"] = self.counts.get("J_alter_combinations", 0) + n
+            self.distinct += 1
+            if rw:
+                found[iso] = rw
+        self.obs["option_rewrites_by_country"] = {iso: {"combinations": len(rw), "rewrites": sorted(set(r for _, r in rw))}
+                                                  for iso, rw in found.items()}
+        self.found_rewrites = sorted(f"{iso}|{c}=>{r}" for iso, rw in found.items() for c, r in rw)
+        if recorded is None:
+            self.fail("C13:rewrite-record-missing@corpus/C13/known_rewrites.json",
+                      "the recorded set of documented option rewrites is missing; cannot tell documented exceptions from new ones",
+                      "alter", {})
+            return
+        rec = set(recorded)
+        new = [x for x in self.found_rewrites if x not in rec]
+        per = {}
+        for x in new:
+            iso = x.split("|")[0]
+            per[iso] = per.get(iso, 0) + 1
+            if per[iso] > 2:
+                continue
+            combo, rewrite = x[len(iso) + 1:].split("=>")
+            o = [(k, v) for k, v in self.B["C"]]
+            kv = dict(p.split("=", 1) for p in combo.split("|"))
+            o = [(k, kv.get(k, v)) for k, v in o]
+            row = iso if iso in self.rows.by_iso else None
+            detail = ""
+            if row is not None:
+                r = dispatch(o, self.row(row))
+                if r["ok"]:
+                    got = fl(r["cp"])
+                    detail = (f"; constants actually used: FEED_SHUTOFF_MONTHS={got.get('DELAY.FEED_SHUTOFF_MONTHS', {}).get('n')}, "
+                              f"BIOFUEL_SHUTOFF_MONTHS={got.get('DELAY.BIOFUEL_SHUTOFF_MONTHS', {}).get('n')}")
+                    want = self.DOC.get(("shutoff", kv.get("shutoff")))
+                    if want:
+                        detail += (f" (documented for shutoff={kv.get('shutoff')}: {want['DELAY.FEED_SHUTOFF_MONTHS']} / "
+                                   f"{want['DELAY.BIOFUEL_SHUTOFF_MONTHS']})")
+            self.fail(f"C13:option-rewritten@run_scenario.alter_scenario_if_known_to_fail:{iso}",
+                      f"country {iso}, options {combo}: the requested option is silently replaced ({rewrite}); this combination is "
+                      f"not among the recorded maintainers' exceptions ({len([y for y in new if y.startswith(iso + '|')])} new "
+                      f"combinations for {iso}){detail}", "alter", {"iso3": iso, "combination": kv, "rewrite": rewrite})
+        gone = [x for x in rec if x not in set(self.found_rewrites)
+                and (x.split("|")[0] in table_c + others)]
+        if gone:
+            self.obs["recorded_rewrites_no_longer_applied"] = {"count": len(gone), "examples": sorted(gone)[:3]}
 
     def part_D(self, species):
         rng = self.rng
@@ -934,6 +1054,10 @@ def run(payload):
         elif chk == "frame":
             # frames are re-derived (expectation functions are not serialisable): re-run the whole family of frames
             a.part_D(species)
+            a.part_D2(species)
+            a.failures = [f for f in a.failures if f["key"] == rep.get("key")]
+        elif chk == "alter":
+            a.part_J(True)
             a.failures = [f for f in a.failures if f["key"] == rep.get("key")]
         else:
             # tie-broken / proof-broken replays carry no direct implementation property; re-run the audit
@@ -946,6 +1070,8 @@ def run(payload):
     a.part_H()
     a.part_B()
     a.part_D(species)
+    a.part_D2(species)
+    a.part_J(quick)
     all_codes = [str(x) for x in a.rows.table["iso3"]]
     if quick:
         codes = ["USA", "SWT", "SWZ", "WOR"] + a.rng.sample(all_codes, 3)
@@ -956,7 +1082,8 @@ def run(payload):
         check_full_run(a, *fr)
     for orun in (OVERRIDE_RUNS[:2] if quick else OVERRIDE_RUNS):
         check_override_run(a, *orun)
-    return {"failures": a.failures, "counts": a.counts, "observations": a.obs, "distinct": a.distinct}
+    return {"failures": a.failures, "counts": a.counts, "observations": a.obs, "distinct": a.distinct,
+            "found_rewrites": getattr(a, "found_rewrites", None)}
 
 
 if __name__ == "__main__":
